@@ -5,6 +5,7 @@ of the tree grammar `JValue` of Spec/Grammar.lean (permissive strings, duplicate
 import JsonV.Lemmas.GlueTreeParse
 import JsonV.Lemmas.GlueFormatNum
 import JsonV.Lemmas.GlueFormatStr
+import JsonV.Model.FormatStrict
 
 namespace JsonV.Fmt
 open JsonV.Canon JsonV.Lemmas.CanonNest JsonV.Spec.Grammar
@@ -40,148 +41,198 @@ abbrev elemText (e : Bytes × Bytes × Bytes) : Bytes := e.1 ++ e.2.1 ++ e.2.2
 abbrev memText (m : Bytes × Bytes × Bytes × Bytes × Bytes × Bytes) : Bytes :=
   m.1 ++ m.2.1 ++ m.2.2.1 ++ [0x3A] ++ m.2.2.2.1 ++ m.2.2.2.2.1 ++ m.2.2.2.2.2
 
-section
-variable (key : Bytes → Bytes)
+/-- duplicate names are allowed, or the test `b` passed -/
+def DupOK (o : GOpts) (b : Bool) : Prop := o.allowDup = true ∨ b = true
 
-/-- the grammar instance: permissive strings, duplicate names allowed, the model's nesting limit -/
-abbrev GV (d : Nat) (v : Bytes) : Prop := JValue ⟨false, true⟩ maxDepth key d v
+theorem DupOK.and {o : GOpts} {a b : Bool} (h : DupOK o (a && b)) : DupOK o a ∧ DupOK o b := by
+  rcases h with h | h
+  · exact ⟨Or.inl h, Or.inl h⟩
+  · simp only [Bool.and_eq_true] at h; exact ⟨Or.inr h.1, Or.inr h.2⟩
+
+theorem DupOK.mk_and {o : GOpts} {a b : Bool} (ha : DupOK o a) (hb : DupOK o b) : DupOK o (a && b) := by
+  rcases ha with h | ha
+  · exact Or.inl h
+  · rcases hb with h | hb
+    · exact Or.inl h
+    · exact Or.inr (by simp [ha, hb])
+
+section
+variable (o : GOpts) (key : Bytes → Bytes)
+
+/-- the grammar instance: the model's nesting limit, any string mode / duplicate policy -/
+abbrev GV (d : Nat) (v : Bytes) : Prop := JValue o maxDepth key d v
 
 def ElemsOK (d : Nat) (elems : List (Bytes × Bytes × Bytes)) : Prop :=
-  (∀ e ∈ elems, JWs e.1 ∧ JWs e.2.2) ∧ (∀ e ∈ elems, GV key d e.2.1)
+  (∀ e ∈ elems, JWs e.1 ∧ JWs e.2.2) ∧ (∀ e ∈ elems, GV o key d e.2.1)
 
 def MemsOK (d : Nat) (mems : List (Bytes × Bytes × Bytes × Bytes × Bytes × Bytes)) : Prop :=
-  (∀ m ∈ mems, JWs m.1 ∧ JString false m.2.1 ∧ JWs m.2.2.1 ∧ JWs m.2.2.2.1 ∧ JWs m.2.2.2.2.2) ∧
-  (∀ m ∈ mems, GV key d m.2.2.2.2.1)
+  (∀ m ∈ mems, JWs m.1 ∧ JString o.strict m.2.1 ∧ JWs m.2.2.1 ∧ JWs m.2.2.2.1 ∧ JWs m.2.2.2.2.2) ∧
+  (∀ m ∈ mems, GV o key d m.2.2.2.2.1)
 
 theorem ElemsOK.cons {d : Nat} {e : Bytes × Bytes × Bytes} {es : List (Bytes × Bytes × Bytes)}
-    (h1 : JWs e.1) (h2 : JWs e.2.2) (h3 : GV key d e.2.1) (h : ElemsOK key d es) : ElemsOK key d (e :: es) :=
+    (h1 : JWs e.1) (h2 : JWs e.2.2) (h3 : GV o key d e.2.1) (h : ElemsOK o key d es) : ElemsOK o key d (e :: es) :=
   ⟨fun x hx => by rcases List.mem_cons.mp hx with rfl | hx; exact ⟨h1, h2⟩; exact h.1 x hx,
    fun x hx => by rcases List.mem_cons.mp hx with rfl | hx; exact h3; exact h.2 x hx⟩
 
 theorem MemsOK.cons {d : Nat} {m : Bytes × Bytes × Bytes × Bytes × Bytes × Bytes}
     {ms : List (Bytes × Bytes × Bytes × Bytes × Bytes × Bytes)}
-    (h1 : JWs m.1 ∧ JString false m.2.1 ∧ JWs m.2.2.1 ∧ JWs m.2.2.2.1 ∧ JWs m.2.2.2.2.2) (h3 : GV key d m.2.2.2.2.1)
-    (h : MemsOK key d ms) : MemsOK key d (m :: ms) :=
+    (h1 : JWs m.1 ∧ JString o.strict m.2.1 ∧ JWs m.2.2.1 ∧ JWs m.2.2.2.1 ∧ JWs m.2.2.2.2.2) (h3 : GV o key d m.2.2.2.2.1)
+    (h : MemsOK o key d ms) : MemsOK o key d (m :: ms) :=
   ⟨fun x hx => by rcases List.mem_cons.mp hx with rfl | hx; exact h1; exact h.1 x hx,
    fun x hx => by rcases List.mem_cons.mp hx with rfl | hx; exact h3; exact h.2 x hx⟩
 
 /-- a valid scalar token is a value of the grammar -/
-theorem atom_value (k : Tok) (hk : atomOK k = true) (hv : k.valid = true) (d : Nat) : GV key d k.bytes := by
+theorem atom_value (k : Tok) (hk : atomOK k = true) (hv : k.valid = true)
+    (hs : ∀ raw, k = .str raw → JString o.strict raw) (d : Nat) : GV o key d k.bytes := by
   cases k with
   | bo => simp [atomOK] at hk
   | eo => simp [atomOK] at hk
   | ba => simp [atomOK] at hk
   | ea => simp [atomOK] at hk
-  | str raw => exact JValue.str d raw ((str_valid_iff raw).mp hv)
+  | str raw => exact JValue.str d raw (hs raw rfl)
   | num raw => exact JValue.num d raw ((scanNum_iff' raw).mp (Tok.valid_num hv))
   | null => exact JValue.null d
   | tru => exact JValue.true d
   | fls => exact JValue.false d
 
+/-- the strings of a token list are strings of the selected mode -/
+def StrsOK (ts : List Tok) : Prop := ∀ raw, Tok.str raw ∈ ts → JString o.strict raw
+
 mutual
-theorem coreV : ∀ (t : JV), AtomsOK t = true → (∀ k ∈ t.toks, k.valid = true) → ∀ (d : Nat) (rest : List Lex) (b : Bytes),
+theorem coreV : ∀ (t : JV), AtomsOK t = true → (∀ k ∈ t.toks, k.valid = true) → StrsOK o t.toks → DupOK o (dupT key t) →
+    ∀ (d : Nat) (rest : List Lex) (b : Bytes),
     depthOK t d = true → Layout (lexT t ++ rest) b →
-    ∃ w v b', b = w ++ (v ++ b') ∧ JWs w ∧ GV key d v ∧ Layout rest b'
-  | .atom k, h, hv, d, rest, b, _, hl => by
+    ∃ w v b', b = w ++ (v ++ b') ∧ JWs w ∧ GV o key d v ∧ Layout rest b'
+  | .atom k, h, hv, hs, _, d, rest, b, _, hl => by
     simp only [AtomsOK] at h
     simp only [lexT, List.singleton_append] at hl
     obtain ⟨w, b', rfl, hw, hl'⟩ := hl.inv_cons
-    exact ⟨w, k.bytes, b', rfl, hw, atom_value key k h (hv k (by simp [JV.toks])) d, hl'⟩
-  | .arr es, h, hv, d, rest, b, hd, hl => by
+    exact ⟨w, k.bytes, b', rfl, hw,
+      atom_value o key k h (hv k (by simp [JV.toks])) (fun raw e => hs raw (by simp [JV.toks, e])) d, hl'⟩
+  | .arr es, h, hv, hs, hdp, d, rest, b, hd, hl => by
     simp only [AtomsOK] at h
     simp only [depthOK, Bool.and_eq_true, decide_eq_true_eq] at hd
+    simp only [dupT] at hdp
     have e : lexT (.arr es) ++ rest = .tok .ba :: (lexL true es ++ (.tok .ea :: rest)) := by simp [lexT]
     rw [e] at hl
     obtain ⟨w, b1, rfl, hw, hl1⟩ := hl.inv_cons
-    obtain ⟨body, b', rfl, hl', hb⟩ := bodyL es h (fun k hk => hv k (by simp [JV.toks, hk])) (d + 1) rest b1 hd.2 hl1
+    obtain ⟨body, b', rfl, hl', hb⟩ := bodyL es h (fun k hk => hv k (by simp [JV.toks, hk]))
+      (fun raw hk => hs raw (by simp [JV.toks, hk])) hdp (d + 1) rest b1 hd.2 hl1
     refine ⟨w, 0x5B :: (body ++ [0x5D]), b', by simp [Lex.bytes, Tok.bytes], hw, ?_, hl'⟩
     rcases hb with hws | ⟨elems, hne, hok, rfl⟩
     · exact JValue.emptyArr d body hd.1 hws
     · exact JValue.arr d elems hd.1 hne hok.1 hok.2
-  | .obj ms, h, hv, d, rest, b, hd, hl => by
+  | .obj ms, h, hv, hs, hdp, d, rest, b, hd, hl => by
     simp only [AtomsOK] at h
     simp only [depthOK, Bool.and_eq_true, decide_eq_true_eq] at hd
+    simp only [dupT] at hdp
     have e : lexT (.obj ms) ++ rest = .tok .bo :: (lexM true ms ++ (.tok .eo :: rest)) := by simp [lexT]
     rw [e] at hl
     obtain ⟨w, b1, rfl, hw, hl1⟩ := hl.inv_cons
-    obtain ⟨body, b', rfl, hl', hb⟩ := bodyM ms h (fun k hk => hv k (by simp [JV.toks, hk])) (d + 1) rest b1 hd.2 hl1
+    obtain ⟨body, b', rfl, hl', hb⟩ := bodyM ms h (fun k hk => hv k (by simp [JV.toks, hk]))
+      (fun raw hk => hs raw (by simp [JV.toks, hk])) hdp.and.2 (d + 1) rest b1 hd.2 hl1
     refine ⟨w, 0x7B :: (body ++ [0x7D]), b', by simp [Lex.bytes, Tok.bytes], hw, ?_, hl'⟩
-    rcases hb with hws | ⟨mems, hne, hok, rfl⟩
+    rcases hb with hws | ⟨mems, hne, hok, hnames, rfl⟩
     · exact JValue.emptyObj d body hd.1 hws
-    · exact JValue.obj d mems hd.1 hne hok.1 hok.2 (Or.inl rfl)
+    · refine JValue.obj d mems hd.1 hne hok.1 hok.2 ?_
+      rcases hdp.and.1 with hdup | hdup
+      · exact Or.inl hdup
+      · right
+        have : (mems.map fun m => key m.2.1) = ms.map fun p => key p.1 := by
+          have := congrArg (List.map key) hnames
+          rw [List.map_map, List.map_map] at this
+          exact this
+        rw [this]; simpa using hdup
 /-- the inside of an array: whitespace only, or the elements joined by commas -/
-theorem bodyL : ∀ (es : List JV), AtomsOKL es = true → (∀ k ∈ toksL es, k.valid = true) →
+theorem bodyL : ∀ (es : List JV), AtomsOKL es = true → (∀ k ∈ toksL es, k.valid = true) → StrsOK o (toksL es) →
+    DupOK o (dupL key es) →
     ∀ (d : Nat) (rest : List Lex) (b : Bytes), depthOKL es d = true → Layout (lexL true es ++ (.tok .ea :: rest)) b →
     ∃ body b', b = body ++ (0x5D :: b') ∧ Layout rest b' ∧
-      (JWs body ∨ ∃ elems, elems ≠ [] ∧ ElemsOK key d elems ∧ body = joinSep (elems.map fun e => e.1 ++ e.2.1 ++ e.2.2))
-  | [], _, _, d, rest, b, _, hl => by
+      (JWs body ∨ ∃ elems, elems ≠ [] ∧ ElemsOK o key d elems ∧ body = joinSep (elems.map fun e => e.1 ++ e.2.1 ++ e.2.2))
+  | [], _, _, _, _, d, rest, b, _, hl => by
     simp only [lexL, List.nil_append] at hl
     obtain ⟨w, b', rfl, hw, hl'⟩ := hl.inv_cons
     exact ⟨w, b', by simp [Lex.bytes, Tok.bytes], hl', Or.inl hw⟩
-  | e :: es, h, hv, d, rest, b, hd, hl => by
+  | e :: es, h, hv, hs, hdp, d, rest, b, hd, hl => by
     simp only [AtomsOKL, Bool.and_eq_true] at h
     simp only [depthOKL, Bool.and_eq_true] at hd
+    simp only [dupL] at hdp
     have e1 : lexL true (e :: es) ++ (.tok .ea :: rest) = lexT e ++ (lexL false es ++ (.tok .ea :: rest)) := by
       simp [lexL, sepLex]
     rw [e1] at hl
-    obtain ⟨w1, v, b2, rfl, hw1, hgv, hl2⟩ := coreV e h.1 (fun k hk => hv k (by simp [toksL, hk])) d _ b hd.1 hl
-    obtain ⟨w2, elems, b', rfl, hw2, hok, hl'⟩ := tailL es h.2 (fun k hk => hv k (by simp [toksL, hk])) d rest b2 hd.2 hl2
+    obtain ⟨w1, v, b2, rfl, hw1, hgv, hl2⟩ := coreV e h.1 (fun k hk => hv k (by simp [toksL, hk]))
+      (fun raw hk => hs raw (by simp [toksL, hk])) hdp.and.1 d _ b hd.1 hl
+    obtain ⟨w2, elems, b', rfl, hw2, hok, hl'⟩ := tailL es h.2 (fun k hk => hv k (by simp [toksL, hk]))
+      (fun raw hk => hs raw (by simp [toksL, hk])) hdp.and.2 d rest b2 hd.2 hl2
     refine ⟨(w1 ++ v ++ w2) ++ sepTail (elems.map elemText), b', by simp [List.append_assoc], hl', Or.inr ?_⟩
-    refine ⟨(w1, v, w2) :: elems, by simp, ElemsOK.cons key hw1 hw2 hgv hok, ?_⟩
+    refine ⟨(w1, v, w2) :: elems, by simp, ElemsOK.cons o key hw1 hw2 hgv hok, ?_⟩
     rw [List.map_cons, joinSep_cons]
 /-- after an element: whitespace, then `, element` repeatedly, up to the closing bracket -/
-theorem tailL : ∀ (es : List JV), AtomsOKL es = true → (∀ k ∈ toksL es, k.valid = true) →
+theorem tailL : ∀ (es : List JV), AtomsOKL es = true → (∀ k ∈ toksL es, k.valid = true) → StrsOK o (toksL es) →
+    DupOK o (dupL key es) →
     ∀ (d : Nat) (rest : List Lex) (b : Bytes), depthOKL es d = true → Layout (lexL false es ++ (.tok .ea :: rest)) b →
-    ∃ w elems b', b = w ++ (sepTail (elems.map elemText) ++ (0x5D :: b')) ∧ JWs w ∧ ElemsOK key d elems ∧ Layout rest b'
-  | [], _, _, d, rest, b, _, hl => by
+    ∃ w elems b', b = w ++ (sepTail (elems.map elemText) ++ (0x5D :: b')) ∧ JWs w ∧ ElemsOK o key d elems ∧ Layout rest b'
+  | [], _, _, _, _, d, rest, b, _, hl => by
     simp only [lexL, List.nil_append] at hl
     obtain ⟨w, b', rfl, hw, hl'⟩ := hl.inv_cons
     exact ⟨w, [], b', by simp [Lex.bytes, Tok.bytes, sepTail], hw, ⟨by simp, by simp⟩, hl'⟩
-  | e :: es, h, hv, d, rest, b, hd, hl => by
+  | e :: es, h, hv, hs, hdp, d, rest, b, hd, hl => by
     simp only [AtomsOKL, Bool.and_eq_true] at h
     simp only [depthOKL, Bool.and_eq_true] at hd
+    simp only [dupL] at hdp
     have e1 : lexL false (e :: es) ++ (.tok .ea :: rest) =
         .delim .comma :: (lexT e ++ (lexL false es ++ (.tok .ea :: rest))) := by simp [lexL, sepLex]
     rw [e1] at hl
     obtain ⟨w, b1, rfl, hw, hl1⟩ := hl.inv_cons
-    obtain ⟨w1, v, b2, rfl, hw1, hgv, hl2⟩ := coreV e h.1 (fun k hk => hv k (by simp [toksL, hk])) d _ b1 hd.1 hl1
-    obtain ⟨w2, elems, b', rfl, hw2, hok, hl'⟩ := tailL es h.2 (fun k hk => hv k (by simp [toksL, hk])) d rest b2 hd.2 hl2
+    obtain ⟨w1, v, b2, rfl, hw1, hgv, hl2⟩ := coreV e h.1 (fun k hk => hv k (by simp [toksL, hk]))
+      (fun raw hk => hs raw (by simp [toksL, hk])) hdp.and.1 d _ b1 hd.1 hl1
+    obtain ⟨w2, elems, b', rfl, hw2, hok, hl'⟩ := tailL es h.2 (fun k hk => hv k (by simp [toksL, hk]))
+      (fun raw hk => hs raw (by simp [toksL, hk])) hdp.and.2 d rest b2 hd.2 hl2
     exact ⟨w, (w1, v, w2) :: elems, b', by simp [Lex.bytes, Delim.bytes, sepTail, List.append_assoc], hw,
-      ElemsOK.cons key hw1 hw2 hgv hok, hl'⟩
-theorem bodyM : ∀ (ms : List (Bytes × JV)), AtomsOKM ms = true → (∀ k ∈ toksM ms, k.valid = true) →
+      ElemsOK.cons o key hw1 hw2 hgv hok, hl'⟩
+theorem bodyM : ∀ (ms : List (Bytes × JV)), AtomsOKM ms = true → (∀ k ∈ toksM ms, k.valid = true) → StrsOK o (toksM ms) →
+    DupOK o (dupM key ms) →
     ∀ (d : Nat) (rest : List Lex) (b : Bytes), depthOKM ms d = true → Layout (lexM true ms ++ (.tok .eo :: rest)) b →
     ∃ body b', b = body ++ (0x7D :: b') ∧ Layout rest b' ∧
-      (JWs body ∨ ∃ mems, mems ≠ [] ∧ MemsOK key d mems ∧ body = joinSep (mems.map fun m =>
+      (JWs body ∨ ∃ mems, mems ≠ [] ∧ MemsOK o key d mems ∧ (mems.map fun m => m.2.1) = ms.map Prod.fst ∧
+        body = joinSep (mems.map fun m =>
         m.1 ++ m.2.1 ++ m.2.2.1 ++ [0x3A] ++ m.2.2.2.1 ++ m.2.2.2.2.1 ++ m.2.2.2.2.2))
-  | [], _, _, d, rest, b, _, hl => by
+  | [], _, _, _, _, d, rest, b, _, hl => by
     simp only [lexM, List.nil_append] at hl
     obtain ⟨w, b', rfl, hw, hl'⟩ := hl.inv_cons
     exact ⟨w, b', by simp [Lex.bytes, Tok.bytes], hl', Or.inl hw⟩
-  | (n, x) :: ms, h, hv, d, rest, b, hd, hl => by
+  | (n, x) :: ms, h, hv, hs, hdp, d, rest, b, hd, hl => by
     simp only [AtomsOKM, Bool.and_eq_true] at h
     simp only [depthOKM, Bool.and_eq_true] at hd
+    simp only [dupM] at hdp
     have e1 : lexM true ((n, x) :: ms) ++ (.tok .eo :: rest) =
         .tok (.str n) :: .delim .colon :: (lexT x ++ (lexM false ms ++ (.tok .eo :: rest))) := by simp [lexM, sepLex]
     rw [e1] at hl
     obtain ⟨w1, b1, rfl, hw1, hl1⟩ := hl.inv_cons
     obtain ⟨w2, b2, rfl, hw2, hl2⟩ := hl1.inv_cons
-    obtain ⟨w3, v, b3, rfl, hw3, hgv, hl3⟩ := coreV x h.1 (fun k hk => hv k (by simp [toksM, hk])) d _ b2 hd.1 hl2
-    obtain ⟨w4, mems, b', rfl, hw4, hok, hl'⟩ := tailM ms h.2 (fun k hk => hv k (by simp [toksM, hk])) d rest b3 hd.2 hl3
-    have hn : JString false n := (str_valid_iff n).mp (hv (.str n) (by simp [toksM]))
+    obtain ⟨w3, v, b3, rfl, hw3, hgv, hl3⟩ := coreV x h.1 (fun k hk => hv k (by simp [toksM, hk]))
+      (fun raw hk => hs raw (by simp [toksM, hk])) hdp.and.1 d _ b2 hd.1 hl2
+    obtain ⟨w4, mems, b', rfl, hw4, hok, hnames, hl'⟩ := tailM ms h.2 (fun k hk => hv k (by simp [toksM, hk]))
+      (fun raw hk => hs raw (by simp [toksM, hk])) hdp.and.2 d rest b3 hd.2 hl3
+    have hn : JString o.strict n := hs n (by simp [toksM])
     refine ⟨memText (w1, n, w2, w3, v, w4) ++ sepTail (mems.map memText), b',
       by simp [Lex.bytes, Tok.bytes, Delim.bytes, List.append_assoc], hl', Or.inr ?_⟩
-    refine ⟨(w1, n, w2, w3, v, w4) :: mems, by simp, MemsOK.cons key ⟨hw1, hn, hw2, hw3, hw4⟩ hgv hok, ?_⟩
+    refine ⟨(w1, n, w2, w3, v, w4) :: mems, by simp, MemsOK.cons o key ⟨hw1, hn, hw2, hw3, hw4⟩ hgv hok,
+      by simp [hnames], ?_⟩
     rw [List.map_cons, joinSep_cons]
-theorem tailM : ∀ (ms : List (Bytes × JV)), AtomsOKM ms = true → (∀ k ∈ toksM ms, k.valid = true) →
+theorem tailM : ∀ (ms : List (Bytes × JV)), AtomsOKM ms = true → (∀ k ∈ toksM ms, k.valid = true) → StrsOK o (toksM ms) →
+    DupOK o (dupM key ms) →
     ∀ (d : Nat) (rest : List Lex) (b : Bytes), depthOKM ms d = true → Layout (lexM false ms ++ (.tok .eo :: rest)) b →
-    ∃ w mems b', b = w ++ (sepTail (mems.map memText) ++ (0x7D :: b')) ∧ JWs w ∧ MemsOK key d mems ∧ Layout rest b'
-  | [], _, _, d, rest, b, _, hl => by
+    ∃ w mems b', b = w ++ (sepTail (mems.map memText) ++ (0x7D :: b')) ∧ JWs w ∧ MemsOK o key d mems ∧
+      (mems.map fun m => m.2.1) = ms.map Prod.fst ∧ Layout rest b'
+  | [], _, _, _, _, d, rest, b, _, hl => by
     simp only [lexM, List.nil_append] at hl
     obtain ⟨w, b', rfl, hw, hl'⟩ := hl.inv_cons
-    exact ⟨w, [], b', by simp [Lex.bytes, Tok.bytes, sepTail], hw, ⟨by simp, by simp⟩, hl'⟩
-  | (n, x) :: ms, h, hv, d, rest, b, hd, hl => by
+    exact ⟨w, [], b', by simp [Lex.bytes, Tok.bytes, sepTail], hw, ⟨by simp, by simp⟩, rfl, hl'⟩
+  | (n, x) :: ms, h, hv, hs, hdp, d, rest, b, hd, hl => by
     simp only [AtomsOKM, Bool.and_eq_true] at h
     simp only [depthOKM, Bool.and_eq_true] at hd
+    simp only [dupM] at hdp
     have e1 : lexM false ((n, x) :: ms) ++ (.tok .eo :: rest) =
         .delim .comma :: .tok (.str n) :: .delim .colon :: (lexT x ++ (lexM false ms ++ (.tok .eo :: rest))) := by
       simp [lexM, sepLex]
@@ -189,18 +240,21 @@ theorem tailM : ∀ (ms : List (Bytes × JV)), AtomsOKM ms = true → (∀ k ∈
     obtain ⟨w, b0, rfl, hw, hl0⟩ := hl.inv_cons
     obtain ⟨w1, b1, rfl, hw1, hl1⟩ := hl0.inv_cons
     obtain ⟨w2, b2, rfl, hw2, hl2⟩ := hl1.inv_cons
-    obtain ⟨w3, v, b3, rfl, hw3, hgv, hl3⟩ := coreV x h.1 (fun k hk => hv k (by simp [toksM, hk])) d _ b2 hd.1 hl2
-    obtain ⟨w4, mems, b', rfl, hw4, hok, hl'⟩ := tailM ms h.2 (fun k hk => hv k (by simp [toksM, hk])) d rest b3 hd.2 hl3
-    have hn : JString false n := (str_valid_iff n).mp (hv (.str n) (by simp [toksM]))
+    obtain ⟨w3, v, b3, rfl, hw3, hgv, hl3⟩ := coreV x h.1 (fun k hk => hv k (by simp [toksM, hk]))
+      (fun raw hk => hs raw (by simp [toksM, hk])) hdp.and.1 d _ b2 hd.1 hl2
+    obtain ⟨w4, mems, b', rfl, hw4, hok, hnames, hl'⟩ := tailM ms h.2 (fun k hk => hv k (by simp [toksM, hk]))
+      (fun raw hk => hs raw (by simp [toksM, hk])) hdp.and.2 d rest b3 hd.2 hl3
+    have hn : JString o.strict n := hs n (by simp [toksM])
     exact ⟨w, (w1, n, w2, w3, v, w4) :: mems, b',
       by simp [Lex.bytes, Tok.bytes, Delim.bytes, sepTail, List.append_assoc], hw,
-      MemsOK.cons key ⟨hw1, hn, hw2, hw3, hw4⟩ hgv hok, hl'⟩
+      MemsOK.cons o key ⟨hw1, hn, hw2, hw3, hw4⟩ hgv hok, by simp [hnames], hl'⟩
 end
 
-/-- **tokenize ⇒ JText**: every text the tokenizer accepts is a text of the RFC 8259 grammar of C01 (permissive
-strings, duplicate names allowed, nesting ≤ maxNestingDepth), for every name-key function. -/
-theorem tokenize_text (b : Bytes) (ts : List Tok) (h : tokenize b = some ts) :
-    JText ⟨false, true⟩ maxDepth key b := by
+/-- A text tokenized to the tokens of a tree whose strings are of the selected mode and whose names pass the
+duplicate test is a text of the grammar with those options. -/
+theorem tokenize_text_gen (b : Bytes) (ts : List Tok) (h : tokenize b = some ts) (hs : StrsOK o ts)
+    (hdp : ∀ t : JV, ts = t.toks → AtomsOK t = true → DupOK o (dupT key t)) :
+    JText o maxDepth key b := by
   obtain ⟨hw, hl⟩ := (tokenize_iff_layout' b ts).mp h
   obtain ⟨t, rfl, ht, hd⟩ := accepts_is_tree ts hw.2
   have hp : punct [.top0] t.toks = lexT t := by
@@ -208,9 +262,16 @@ theorem tokenize_text (b : Bytes) (ts : List Tok) (h : tokenize b = some ts) :
     simpa [delimLex, punct] using this
   rw [hp] at hl
   have hl' : Layout (lexT t ++ []) b := by simpa using hl
-  obtain ⟨w, v, b', rfl, hws, hgv, hrest⟩ := coreV key t ht hw.1 0 [] b hd hl'
+  obtain ⟨w, v, b', rfl, hws, hgv, hrest⟩ := coreV o key t ht hw.1 hs (hdp t rfl ht) 0 [] b hd hl'
   exact ⟨w, v, b', hws, hgv, hrest.inv_nil, by simp [List.append_assoc]⟩
 
 end
+
+/-- **tokenize ⇒ JText**: every text the tokenizer accepts is a text of the RFC 8259 grammar of C01 (permissive
+strings, duplicate names allowed, nesting ≤ maxNestingDepth), for every name-key function. -/
+theorem tokenize_text (key : Bytes → Bytes) (b : Bytes) (ts : List Tok) (h : tokenize b = some ts) :
+    JText ⟨false, true⟩ maxDepth key b :=
+  tokenize_text_gen ⟨false, true⟩ key b ts h
+    (fun raw hm => (str_valid_iff raw).mp ((tokenize_sound' b ts h).1 _ hm)) (fun _ _ _ => Or.inl rfl)
 
 end JsonV.Fmt
